@@ -307,6 +307,33 @@ def to_num(x) -> Num:
     raise Unsupported(f"not a number: {type(x).__name__}")
 
 
+class InfiniteValue(Exception):
+    def __init__(self, guard, value):
+        super().__init__(f"value may be {value}")
+        self.guard = guard
+        self.value = value
+
+
+def real_term(v, assumptions=(), timeout_s=10):
+    """any numeric value (Num or concrete) -> one z3 Real term. Alternatives that are +-inf are
+    dropped when their guard is infeasible under `assumptions` (decided by the solver);
+    a feasible infinite alternative raises InfiniteValue."""
+    n = to_num(v)
+    if not n.has_inf():
+        return n.real()
+    from vt import solve
+
+    alts = []
+    for g, t, ty in n.alts:
+        if isinstance(t, float):
+            r = solve.check([*assumptions, g], timeout_s)
+            if r.status == "unsat":
+                continue
+            raise InfiniteValue(g, t)
+        alts.append((g, t, ty))
+    return Num(alts).real()
+
+
 class Alt:
     """Guarded choice between arbitrary (non-numeric) objects."""
 
@@ -435,10 +462,10 @@ class Summary:
         self.where = where
 
 
-def func_ast(func):
+def func_ast(func, unwrap=True):
     """(FunctionDef node, filename, first line) of the *real* function object."""
-    f = inspect.unwrap(func)
-    src = inspect.getsource(f)
+    f = inspect.unwrap(func) if unwrap else func
+    src = inspect.getsource(f if unwrap else f.__code__)
     tree = ast.parse(textwrap.dedent(src))
     node = tree.body[0]
     if not isinstance(node, (ast.FunctionDef,)):
@@ -523,17 +550,23 @@ class Executor:
         return Num.var(f"{base}!{self.fresh_counter}", ty)
 
     # -- calling -------------------------------------------------------------------
-    def call_function(self, func, args: dict, pc=TRUE):
-        node, filename, firstline, f = func_ast(func)
+    def call_function(self, func, args: dict, pc=TRUE, unwrap=True):
+        node, filename, firstline, f = func_ast(func, unwrap)
         if len(self.frames) >= self.MAX_INLINE_DEPTH:
             raise Unsupported("inline depth exceeded", node)
         fr = Frame(node.name, filename, firstline)
+        fr.entry_pc = pc
         self.frames.append(fr)
         try:
             env = {}
             a = node.args
-            if a.vararg or a.kwarg or a.posonlyargs:
-                raise Unsupported("varargs", node)
+            if a.posonlyargs:
+                raise Unsupported("positional-only arguments", node)
+            args = dict(args)
+            if a.vararg:
+                env[a.vararg.arg] = tuple(args.pop("*", ()))
+            if a.kwarg:
+                env[a.kwarg.arg] = dict(args.pop("**", {}))
             names = [x.arg for x in a.args] + [x.arg for x in a.kwonlyargs]
             defaults = {}
             nd = len(a.defaults)
@@ -684,6 +717,22 @@ class Executor:
                 raise Unsupported("tuple unpacking of a non-tuple", target)
             for t, v in zip(target.elts, vals):
                 self.assign(t, v, env, pc)
+            return
+        if isinstance(target, (ast.Subscript, ast.Attribute)):
+            # mutation of a concrete container / object: only on the unconditional path
+            fr = self.frames[-1]
+            if not (pc is fr.entry_pc or pc.eq(fr.entry_pc)):
+                raise Unsupported("store into a container under a symbolic branch", target)
+            obj = self.eval(target.value, env, pc)
+            if isinstance(obj, (Num, Alt)):
+                raise Unsupported("store into a symbolic value", target)
+            if isinstance(target, ast.Attribute):
+                setattr(obj, target.attr, value)
+                return
+            key = self.eval(target.slice, env, pc)
+            if isinstance(key, (Num, Alt)):
+                raise Unsupported("store with a symbolic key", target)
+            obj[key] = value
             return
         raise Unsupported(f"assignment target {type(target).__name__}", target)
 
@@ -1140,8 +1189,11 @@ class Executor:
     def getattr(self, obj, attr, pc, node):
         if isinstance(obj, Alt):
             return self.dist(obj.alts, lambda v, p: self.getattr(v, attr, p, node), pc, node)
-        if isinstance(obj, Num):
-            raise Unsupported(f"attribute {attr} of a symbolic number", node)
+        if isinstance(obj, Num) or is_conc_num(obj):
+            if attr == "round":
+                return BoundMethod("round", obj)
+            if isinstance(obj, Num):
+                raise Unsupported(f"attribute {attr} of a symbolic number", node)
         if isinstance(obj, Fl):
             obj = float(obj)
         try:
@@ -1218,13 +1270,21 @@ class Executor:
         kwargs = {}
         for k in e.keywords:
             if k.arg is None:
-                raise Unsupported("**kwargs in call", e)
+                d = self.eval(k.value, env, pc)
+                if not isinstance(d, dict):
+                    raise Unsupported("**kwargs of a non-dict", e)
+                kwargs.update(d)
+                continue
             kwargs[k.arg] = self.eval(k.value, env, pc)
         return self.apply(fn, args, kwargs, pc, e)
 
     def apply(self, fn, args, kwargs, pc, node):  # noqa: C901, PLR0911, PLR0912
         if isinstance(fn, Alt):
             return self.dist(fn.alts, lambda v, p: self.apply(v, args, kwargs, p, node), pc, node)
+        if isinstance(fn, BoundMethod) and fn.name == "round":
+            # ndarray.round() / numpy scalar .round(): round half to even, result float
+            r = _h_round(self, [fn.obj, 0, *args], kwargs, pc, node)
+            return _h_float(self, [r], {}, pc, node)
         h = HANDLERS.get(_callable_key(fn))
         if h is not None:
             for i, a in enumerate(args):
@@ -1275,6 +1335,12 @@ class Executor:
             raise Unsupported("dict.get with symbolic key", node)
         self.note_read(d, key)
         return lift(d.get(unlift(key), default))
+
+
+class BoundMethod:
+    def __init__(self, name, obj):
+        self.name = name
+        self.obj = obj
 
 
 class ExcValue:
